@@ -520,7 +520,7 @@ _scn_auth = dict(_scn, harness="harness/scn_auth.c", flags=_scn["flags"] + ["--n
                  unwindset=dict(_scn["unwindset"], **{"verif_crypt.0": 14, "verif_write.0": 9, "maybe_crash.0": 9, "clear_password.0": 14,
                                                       "get_groups.0": 4, "get_groups.1": 4, "is_in_groups.0": 4, "add_groups.0": 4, "fill_salt.0": 18,
                                                       "get_salt_from_passwd.0": 6, "verif_router_snprintf.0": 10, "verif_router_snprintf.1": 5, "strcat.0": 24, "strchr.0": 24, "write_user_data.0": 6,
-                                                      "harness_crash_atomic.0": 4, "verif_ftruncate.0": 9, "cJSON_GetObjectItem.0": 11}),
+                                                      "harness_crash_atomic.0": 4, "verif_ftruncate.0": 9, "cJSON_GetObjectItem.0": 12}),
                  stubs=_SCN_STUBS + ["crypt: injective model crypt(pw, salt) = \"H\" ++ pw", "ftruncate/lseek/write: 8-byte file model with symbolic error / short-write outcomes and a symbolic crash point",
                                      "cJSON_Print of the database: returns the fixed new content \"NEW\"", "cjet_get_random_bytes: fixed bytes",
                                      "credential database installed directly (load_passwd_data's open/mmap/parse are not modelled)"])
@@ -529,7 +529,7 @@ _AF = ["handle_authentication", "credentials_ok", "clear_password", "get_groups"
 for _c, _nm in ((0, "right_password"), (1, "wrong_password"), (2, "unknown_user"), (3, "missing_password"), (4, "other_user")):
     O(id="C08.auth_" + _nm, props=["C08", "C02"], entry="harness_auth_step", defines=["AUTHCASE=%d" % _c], functions=_AF,
       symbolic="(concrete credentials per obligation; group masks and the password buffer are checked)", assumes=[],
-      bounds="database of 9 users / 3 groups; one authenticate request (%s)" % _nm, **_scn_auth)
+      bounds="database of 10 users / 3 groups; one authenticate request (%s)" % _nm, **_scn_auth)
 O(id="C08.reauth", props=["C08", "C07"], entry="harness_reauth", functions=_AF, symbolic="(concrete sequence)", assumes=[],
   bounds="authenticate u1 (ok), u2 (bad password), u2 (ok); then disconnect", **_scn_auth)
 for _c, _nm in ((0, "member"), (1, "other_group"), (2, "unauthenticated")):
@@ -541,7 +541,7 @@ for _c, _nm, _rch in ((0, "unauthenticated", ["refused"]), (1, "own_account", ["
                       (4, "readonly_account", ["refused"]), (5, "unknown_account", ["refused"])):
     O(id="C20.passwd_" + _nm, props=["C20", "C08", "C02"], entry="harness_passwd", defines=["PWCASE=%d" % _c], reach=_rch, functions=_AF,
       symbolic="(concrete requester/target per obligation)", assumes=["the requester's own authentication succeeds where the case needs it"],
-      bounds="database of 9 users; one passwd request (%s); file writes complete" % _nm, **_scn_auth)
+      bounds="database of 10 users; one passwd request (%s); file writes complete" % _nm, **_scn_auth)
 O(id="C20.crash_atomic", props=["C20"], entry="harness_crash_atomic", reach=["completed", "crashed", "failed"], functions=["write_user_data"],
   symbolic="ftruncate failure, outcome of each of up to 3 write calls (error / short by 1..3 bytes / complete), crash point after any of the first 7 file-system calls",
   assumes=[], bounds="old content 4 bytes, new content 3 bytes, <= 3 write calls", **_scn_auth)
@@ -651,7 +651,7 @@ O(id="C08.visibility_prefix_group", props=["C08"], entry="harness_visibility", d
   functions=_AF + ["add_fetch_to_state_and_notify", "set_or_call", "fill_access", "get_elements"], symbolic="state value", assumes=["set-up requests succeed"],
   bounds="state 's' with fetchGroups/setGroups [g1]; peer P1 is a member of group 'g' only (a different group whose name is a prefix)", **_scn_auth)
 O(id="C20.passwd_own_readonly_account", props=["C20", "C08", "C02"], entry="harness_passwd", defines=["PWCASE=6"], reach=["refused"], functions=_AF,
-  symbolic="(concrete requester/target)", assumes=["the requester's own authentication succeeds"], bounds="database of 9 users; the read-only user changes its own password", **_scn_auth)
+  symbolic="(concrete requester/target)", assumes=["the requester's own authentication succeeds"], bounds="database of 10 users; the read-only user changes its own password", **_scn_auth)
 for _r, _nm, _op, _rch in ((10, "contains_all_of_ci_second_missing", "A", ["not_matched"]), (11, "contains_all_of_ci", "A", ["matched"]), (12, "equals_not_ci", "A", ["not_matched"]),
                            (12, "equals_not_ci", "z", ["matched"]), (13, "contains_ci", "A", ["matched"]), (14, "starts_with_ci", "A", ["matched"]), (15, "ends_with_ci", "A", ["matched"]),
                            (15, "ends_with_ci", "z", ["not_matched"])):
@@ -843,7 +843,7 @@ for _r, _nm in ((16, "option_name_prefix_alone"), (17, "option_name_prefix"), (1
 for _c, _nm in ((7, "name_extends_requesters"), (8, "name_is_prefix_of_requesters")):
     O(id="C20.passwd_account_whose_" + _nm, props=["C20", "C08", "C02"], entry="harness_passwd", defines=["PWCASE=%d" % _c], reach=["refused"], functions=_AF,
       symbolic="(concrete requester/target)", assumes=["the requester's own authentication succeeds"],
-      bounds="database of 9 users; users 'u1' and 'u1x' (one name a prefix of the other), neither admin", **_scn_auth)
+      bounds="database of 10 users; users 'u1' and 'u1x' (one name a prefix of the other), neither admin", **_scn_auth)
 
 O(id="C03.self_request_bystander", props=["C03", "C05", "C07"], entry="harness_self_request_bystander", functions=_RF + ["remove_peer_from_routes", "remove_peer_from_routing_table"],
   symbolic="set value, reply payload", assumes=["set-up succeeds"], bounds="skeleton: O add 's'; O set 's' (routed to itself); bystander C disconnects; O replies", **_scn_route)
@@ -1039,3 +1039,8 @@ for _oid in ("C16.rule_equals_a", "C16.rule_equals_A", "C16.rule_equals_ci_A", "
     _src = [o for o in OBLIGATIONS if o["id"] == _oid][0]
     OBLIGATIONS.append(dict(_src, id=_oid.replace("C16.rule_", "C16.rule_fetch_first_"), defines=list(_src.get("defines", [])) + ["FETCH_FIRST=1"], props=list(_src["props"]),
                             bounds=_src["bounds"].replace("A add 'ab'; B fetch", "B fetch").replace("; A change 'ab'", "; A add 'ab'; A change 'ab'")))
+
+for _c, _nm in ((4, "fetch_group_only"), (5, "set_group_only")):
+    O(id="C08.visibility_" + _nm, props=["C08"], entry="harness_visibility", defines=["VISCASE=%d" % _c],
+      functions=_AF + ["add_fetch_to_state_and_notify", "set_or_call", "fill_access", "get_elements"], symbolic="state value", assumes=["set-up requests succeed"],
+      bounds="state 's' with fetchGroups/setGroups [g1]; peer P1 is a member of the %s" % _nm.replace("_", " "), **_scn_auth)
